@@ -23,7 +23,8 @@ var (
 	c09Locals = []int{0, 1, 3, 8}
 	c09Shapes = []string{"plain", "call-in-try", "early-return-in-loop", "break-in-loop", "throw-caught-per-iteration", "throw-with-pending-operands", "recursion-through-function-value", "recursion-through-closure-in-list",
 		"throw-in-builtin-argument", "throw-in-method-argument", "throw-in-function-argument",
-		"match-without-default-that-matches-nothing", "if-without-else-not-taken-and-discarded-values"}
+		"match-without-default-that-matches-nothing", "if-without-else-not-taken-and-discarded-values",
+		"recursion-below-casts"}
 
 	c09CallLims  = []uint{1, 2, 3, 4, 6, 8, 12, 16, 100}
 	c09StackLims = []uint{1, 2, 4, 8, 16, 64, 500}
@@ -61,6 +62,11 @@ func c09Program(d, e, v int, shape string, n int) *hs.Program {
 	var loopBody []hs.Stmt
 	funcs := []*hs.Func{rec}
 	switch shape {
+	case "recursion-below-casts":
+		// the limit is exceeded below the operand of a cast (at the call site and on the recursive
+		// cycle): the interrupt that comes up through the cast is still the one of the limit
+		rec.Body.Tail = hs.Bin("+", &hs.Group{X: &hs.Cast{X: &hs.Group{X: &hs.Cast{X: recCall, T: hs.TFloat}}, T: hs.TInt}}, hs.I(1))
+		loopBody = []hs.Stmt{hs.ES(hs.Asg("+=", hs.V("total"), &hs.Cast{X: &hs.Group{X: &hs.Cast{X: hs.CallN("rec", hs.I(int64(d))), T: hs.TFloat}}, T: hs.TInt}))}
 	case "plain", "recursion-through-function-value", "recursion-through-closure-in-list":
 		loopBody = []hs.Stmt{call}
 	case "call-in-try":
